@@ -68,7 +68,11 @@ impl<'a> Iterator for Params<'a> {
             self.nullmap = Some(nullmap);
             self.input = rest;
 
-            if !rest.is_empty() && rest[0] != 0x00 {
+            if !rest.is_empty() && rest[0] == 0x00 {
+                // new-params-bound flag is clear: keep the previously bound types,
+                // but the flag byte itself still precedes the values
+                self.input = &rest[1..];
+            } else if !rest.is_empty() {
                 let (typmap, rest) = rest[1..].split_at(2 * self.params as usize);
                 self.bound_types.clear();
                 for i in 0..self.params as usize {
